@@ -34,7 +34,8 @@ Eval(cc) ==
       dr == CASE cc.k = "SE2" -> <<DR(cc.dr[1], cc.dr[3]), DR(cc.dr[2], cc.dr[3])>>
               [] cc.k = "SE3" -> <<DR(cc.dr[1], cc.dr[4]), DR(cc.dr[2], cc.dr[4]), DR(cc.dr[3], cc.dr[4])>>
               [] OTHER -> <<>>
-  IN [ comp |-> POut(Comp(a, b)), ominus |-> POut(Ominus(a, b)), inv |-> POut(PInv(a)), act |-> VOut(Act(a, pt)),
+  IN IF cc.lite THEN [ comp |-> POut(Comp(a, b)), laws |-> [skipped |-> TRUE], unit |-> UnitRot(a) /\ UnitRot(b) ] ELSE
+     [ comp |-> POut(Comp(a, b)), ominus |-> POut(Ominus(a, b)), inv |-> POut(PInv(a)), act |-> VOut(Act(a, pt)),
        mat_a |-> MOut(Mat(a)), mat_ab |-> MOut(Mat(Comp(a, b))), abc |-> POut(Comp(Comp(a, b), c)),
        boxplus |-> POut(Boxplus(a, dt, dr)), ident |-> POut(Ident(cc.k)),
        normalize |-> IF cc.k = "SE3" THEN NormalizeQ(cc.nq) ELSE <<>>,
